@@ -950,8 +950,9 @@ def _(n):
 
 
 # ------------------------------------------------------------------------------------------------ OLE2 hosts: XLS, PPT
-def _pset(bodies, count=None, section_size=None):
-    """[MS-OLEPS] property set stream with one section; bodies: [(property id, raw TypedPropertyValue bytes)]"""
+def _pset(bodies, count=None, section_size=None, sets=1):
+    """[MS-OLEPS] property set stream with one section; bodies: [(property id, raw TypedPropertyValue bytes)];
+    `sets` forges the NumPropertySets header field (the one section is always present)"""
     from verif.gen import cfb as C
     vals = [(1, struct.pack("<IhH", 2, 1252, 0))] + list(bodies)
     off = 8 + 8 * len(vals)
@@ -960,7 +961,7 @@ def _pset(bodies, count=None, section_size=None):
         index += struct.pack("<II", pid, off)
         off += len(body)
     pset = struct.pack("<II", off if section_size is None else section_size, len(vals) if count is None else count) + index + b"".join(b for _, b in vals)
-    return struct.pack("<HHI", 0xFFFE, 0, 0x00020105) + b"\0" * 16 + struct.pack("<I", 1) + C.FMTID_SUMMARY + struct.pack("<I", 48) + pset
+    return struct.pack("<HHI", 0xFFFE, 0, 0x00020105) + b"\0" * 16 + struct.pack("<I", sets & 0xFFFFFFFF) + C.FMTID_SUMMARY + struct.pack("<I", 48) + pset
 
 
 def _lpstr(s):
@@ -1016,6 +1017,12 @@ OLE_FORGERIES = {
                              lambda n: _pset([(2, _lpstr("Ztitle")), (0x30, struct.pack("<IId", 0x1005, n & 0xFFFFFFFF, 1.0))], section_size=0xFFFFFFFF)),
     "vector-i8-bigsection": ("VT_VECTOR|VT_I8 property with n elements declared, one present, section size field = 0xFFFFFFFF",
                              lambda n: _pset([(2, _lpstr("Ztitle")), (0x30, struct.pack("<IIq", 0x1014, n & 0xFFFFFFFF, 1))], section_size=0xFFFFFFFF)),
+    # ... and a reader that trusts NumPropertySets to decide which sections it looks at is fooled by 0 there
+    **{f"vector-{nm}-sets{lab}": (f"VT_VECTOR|VT_{nm.upper()} property with n elements declared, one present, NumPropertySets field = {sets:#x}",
+                                  (lambda n, vt=vt, fmt=fmt, one=one, sets=sets:
+                                   _pset([(2, _lpstr("Ztitle")), (0x30, struct.pack(fmt, vt, n & 0xFFFFFFFF, one))], sets=sets)))
+       for nm, vt, fmt, one in (("r8", 0x1005, "<IId", 1.0), ("i8", 0x1014, "<IIq", 1))
+       for lab, sets in (("0", 0),)},          # larger counts than sections present make the hosts' readers fail outright (no cost to meter)
     "vector-i4": ("VT_VECTOR|VT_I4 property with n elements declared, one present",
                   lambda n: _pset([(2, _lpstr("Ztitle")), (0x30, struct.pack("<IIi", 0x1003, n & 0xFFFFFFFF, 7))])),
 }
